@@ -39,8 +39,14 @@
                             machine (a prefix of a possibly non-terminating run) the machine passes through
                             a boundary state for every state of the prefix and the invariant holds at each;
                             room hypothesis: the footprint bound of C10 (Props/C10X86.lean: `PeakAtMost Pk`
-                            and `64·(Pk + A + 2) ≤ heapBytes`, `A = progMaxLet p`; with `Pk = A·fuel + 1` the peak hypothesis
-                            is trivial: `C10_peak_trivial`).
+                            and `64·(Pk + A + 2) ≤ heapBytes`, `A = progMaxLet p`; with `Pk = A·fuel + 1`
+                            the peak hypothesis is trivial: `C10_peak_trivial`).
+  * `C09_x86_every_prefix_data`  the same with the room hypothesis stated on the SOURCE PROGRAM: `valsFields st.env ≤
+                            D` for every reachable state of the positional machine (the object values held by
+                            the variables have at most `D` fields) and `64·(D + A + 2) ≤ heapBytes` — no
+                            hypothesis about the machine's run.  EXAMPLE `C09_boxLoop_every_boundary`: the box
+                            loop of Props/C13X86Data.lean, which does not terminate: for EVERY `k` the machine
+                            reaches the boundary of each of the first `k` steps and the invariant holds there.
   * `C09_x86_window`        `InvW` is monotone in the limit down to `frontier + 64`: so `HeapInvAt` holds for
                             the monitor's own limit `min (heapBase + heapBytes) (heapBase + maxHeapWritten +
                             512)` as soon as `frontier + 64 ≤ heapBase + maxHeapWritten + 512`.
@@ -53,11 +59,16 @@
   * `C09_x86_heapCheck_boundary`  hence THE EXECUTABLE CHECK `heapCheck cfg X (ctxKinds st.ctx)` of the machine
                             model RETURNS `.ok (number of blocks below the frontier)` at every statement-
                             boundary state `X` whose frontier lies inside the monitor's window.
-
+  * `C09_parseCtx_hook`, `C09_x86_monitor_boundary`  THE MONITOR ITSELF AT A STATEMENT BOUNDARY (hooks on, on the
+                            items of the routine): the item at the program counter is the `#ctx` comment of the
+                            boundary's context (`post_first_hook`), the monitor's parser reads the kinds back
+                            from it (printer/parser round trip of `ctxHookComment`, for variable names without
+                            blanks), and `monitor cfg px X = .ok (some (blocks below the frontier))` inside the
+                            window — it does not fire there.
   KEPT AS `def : Prop` — `C09_x86_monitor_statement`: "the run with `cfg.heap = true` never ends in an
   `inv:` result", for every compiled program.  THE EXACT GAP between `C09_x86_data_programs` and it:
-  (1) programs with closures (`create`/`invoke`), non-terminating runs and the side hypotheses of
-      `C06_data_programs` (inherited from Theorem A∘B);
+  (1) programs with closures (`create`/`invoke`) and the side hypotheses of `C06_data_programs` (inherited
+      from Theorem A∘B; runs that do not terminate are covered prefix by prefix: `C09_x86_every_prefix`);
   (2) [CLOSED: `C09_invCheckFn_complete`, `C09_x86_heapCheck_boundary`] completeness of
       `Scc.Heap.invCheckFn`;
   (3) the monitor's window: it checks `InvW` for the limit `min (heapBase + heapBytes) (heapBase +
@@ -65,14 +76,16 @@
       the WRITE HISTORY (`maxHeapWritten` counts stores, `HeapRel` sees values: a block that was written
       with zeros is invisible to it) that the memory contracts do not track (true of the real code: every
       block below the frontier except the last block of the reusable list has been written);
-  (4) the monitor runs at EVERY machine state whose program counter is at a `#ctx` comment: that these are
-      exactly the `BoundaryOf` states needs (a) the first item of the code of every statement is its `#ctx`
-      comment and `parseCtx` of its text gives `ctxKinds` (printer/parser round trip on variable names),
-      (b) the states strictly between two boundaries are not at a `#ctx` comment (the step lemmas of
+  (4) the monitor runs at EVERY machine state whose program counter is at a `#ctx` comment: (a) [CLOSED:
+      `C09_x86_monitor_boundary`] at a `BoundaryOf` state it finds the hook of that boundary and passes;
+      (b) OPEN: the states strictly between two boundaries are not at a `#ctx` comment (the step lemmas of
       C06X86Heap only export `stepN … = .inl X'`, not the program counters in between).
 -/
 import Scc.X86.ConcC10
 import Scc.X86.ConcCheck
+import Scc.X86.ConcHook
+import Scc.X86.ConcDataRun
+import Scc.Props.C13X86Data
 import Scc.Props.C06X86Heap
 
 namespace Scc.X86
@@ -203,6 +216,29 @@ example : ∃ live', Scc.Heap.invCheckFn (Scc.Heap.init 4096 8192).mem.get 4096 
     .ok ([4096], [], live', 4096 + 64) ∧ live'.Perm [] :=
   C09_invCheckFn_complete (Scc.Heap.init_inv (base := 4096) (limit := 8192) (by decide) (by decide))
 
+/-- the monitor's parser reads the kinds of a context back from its hook comment (names without blanks) -/
+theorem C09_parseCtx_hook (Γ : Ctx) (h : ∀ b ∈ Γ, ' ' ∉ b.var.print.toList) :
+    parseCtx (ctxHookComment Γ) = some (ctxKinds Γ) := parseCtx_hook Γ h
+
+/-- THE HEAP MONITOR DOES NOT FIRE AT A STATEMENT BOUNDARY (hooks on; `items` = the items of the routine, with
+their comment texts): at a machine state related by `Rel3` to a positional state, `monitor` finds the `#ctx`
+hook of that boundary at the program counter, parses its kinds and — when the frontier lies in its window —
+returns the number of blocks below the frontier. -/
+theorem C09_x86_monitor_boundary {p : AxCut.Prog} {routine : List Code} {ops : List MockOp}
+    {cfg : MonCfg} (hk : cfg.consts = consts) {items : List (Code × Nat)} (hitems : items.map (·.1) = routine)
+    (hparse : ∀ Γ, Code.COMMENT (ctxHookComment Γ) ∈ routine → parseCtx (ctxHookComment Γ) = some (ctxKinds Γ))
+    {st : Pos.State} {X : State} (B : BoundaryOf p true routine ops cfg st X) :
+    ∃ below inUse, HeapShapeAt cfg X below inUse ∧
+      (cfg.heap = false → monitor cfg (mkProg cfg.mach items) X = .ok none) ∧
+      (cfg.heap = true → 64 * below + 64 ≤ X.maxHeapWritten + 512 →
+        monitor cfg (mkProg cfg.mach items) X = .ok (some below)) := by
+  obtain ⟨F, cfgA, hs, hFc, R⟩ := B
+  exact monitor_boundary hFc hk hitems R hparse
+
+/-- the round trip on a concrete context (by the theorem: `parseCtx` does not reduce in the kernel) -/
+example : parseCtx (ctxHookComment [⟨⟨"x", 1⟩, .ext, .i64⟩, ⟨⟨"b", 2⟩, .prd, C06_tBox⟩]) = some [false, true] :=
+  C09_parseCtx_hook _ (by decide)
+
 /-- C09 FOR EVERY PREFIX OF EVERY RUN (terminating or not) of a program with data types: for ANY number `fuel`
 of steps of the positional machine, the machine started at `asm_main` passes — in order, without fault —
 through a statement-boundary state for every state the positional machine goes through, and the invariant of
@@ -234,10 +270,64 @@ theorem C09_x86_every_prefix (p : AxCut.Prog) (args : List Word) (hooks : Bool) 
     hfuel cfg MO hk hb8 hb0 Pk (progMaxLet p) (letLe_progMaxLet p) hbytes items hitems hfitX hP
   exact ⟨n0, X0, h0, BChain.mono (fun st X B => ⟨B.1, heapInvAt_of_boundary hk B.1⟩) hch⟩
 
+/-- C09 FOR EVERY PREFIX OF EVERY RUN, with the room hypothesis on the SOURCE PROGRAM: if the object values held
+by the variables of the positional machine never have more than `D` fields (over all reachable states), a heap
+of `64·(D + A + 2)` bytes is enough, and at every statement boundary of every prefix of the run — terminating or
+not — the machine's heap satisfies the invariant of C09. -/
+theorem C09_x86_every_prefix_data (p : AxCut.Prog) (args : List Word) (hooks : Bool) (body routine : List Code)
+    (nargs : Nat) (d0 : Def) (ops : List MockOp) (c' : Nat)
+    (hsafe : LabelSafe p = true) (htp : LinTypedProg p) (hdata : DataProg p) (hrange : ProgInRange p)
+    (hcompM : (compile mockSym hooks p).run 0 = .ok ((ops, nargs), c')) (hfit : CodeFits ops)
+    (hcompX : compileX86 p hooks 0 = .ok (body, nargs)) (hrout : intoRoutine body nargs = .ok routine)
+    (hnd : (labs routine).Nodup)
+    (hd : p.defs.head? = some d0) (hentry : ∀ b ∈ d0.ctx, b.chi = .ext ∧ b.ty = .i64)
+    (hlen : d0.ctx.length = args.length)
+    (hcap : ∀ st, Reachable p ⟨d0.ctx, args.map .int, d0.body⟩ st → 2 * st.ctx.length ≤ 266)
+    (D : Nat) (hD : ∀ st, Reachable p ⟨d0.ctx, args.map .int, d0.body⟩ st → valsFields st.env ≤ D)
+    (fuel : Nat) (hfuel : fuel + 1 < 2 ^ 64)
+    (cfg : MonCfg) (MO : MachOK cfg.mach) (hk : cfg.consts = consts)
+    (hb8 : cfg.mach.heapBase % 8 = 0) (hb0 : 0 < cfg.mach.heapBase)
+    (hbytes : 64 * (D + progMaxLet p + 2) ≤ cfg.mach.heapBytes)
+    (items : List (Code × Nat)) (hitems : (items.map (·.1)).map stripC = routine.map stripC)
+    (hfitX : addrAt cfg.mach.codeBase routine routine.length < 2 ^ 64) :
+    ∃ n0 X0, stepN cfg (mkProg cfg.mach items) n0 (initState cfg.mach args 6) = .inl X0 ∧
+      BChain cfg (mkProg cfg.mach items)
+        (fun st X => BoundaryOf p hooks routine ops cfg st X ∧
+          HeapInvAt cfg X (ctxKinds st.ctx) (cfg.mach.heapBase + cfg.mach.heapBytes))
+        (statesOf p fuel ⟨d0.ctx, args.map .int, d0.body⟩) X0 := by
+  obtain ⟨n0, X0, h0, hch⟩ := data_programs_prefix_gen p args hooks body routine nargs d0 ops c' hsafe htp
+    ⟨hrange.1, fun d hd => ⟨hdata d hd, hrange.2 d hd⟩⟩ hcompM hfit hcompX hrout hnd hd hentry hlen hcap fuel
+    hfuel cfg MO hb8 hb0 D (progMaxLet p) (letLe_progMaxLet p) hbytes items hitems hfitX (peakHyp_of_data hD)
+  exact ⟨n0, X0, h0, BChain.mono (fun st X B => ⟨B, heapInvAt_of_boundary hk B⟩) hch⟩
+
+/-- THE BOX LOOP (it never terminates): for EVERY number `k` of steps of the positional machine the machine on
+the routine passes through a statement boundary for each of the first `k` states, and the heap invariant holds
+at each of them -/
+theorem C09_boxLoop_every_boundary (k : Nat) (hk : k + 1 < 2 ^ 64) :
+    ∃ n0 X0, stepN {} (mkProg ({} : MachCfg) (C13_loopBoxRoutine.map fun c => (c, 0))) n0
+        (initState {} [21] 6) = .inl X0 ∧
+      BChain {} (mkProg ({} : MachCfg) (C13_loopBoxRoutine.map fun c => (c, 0)))
+        (fun st X => BoundaryOf C13_loopBoxProg true C13_loopBoxRoutine C13_loopBoxOps {} st X ∧
+          HeapInvAt {} X (ctxKinds st.ctx) (0x10000000 + 0x2000000))
+        (statesOf C13_loopBoxProg k C13_loopS0) X0 := by
+  have hcompM : ∃ c, (compile mockSym true C13_loopBoxProg).run 0 = .ok ((C13_loopBoxOps, 1), c) := ⟨_, rfl⟩
+  obtain ⟨c', hcompM⟩ := hcompM
+  have hcompX : compileX86 C13_loopBoxProg true 0 = .ok (C13_loopBoxBody, 1) := rfl
+  have hrout : intoRoutine C13_loopBoxBody 1 = .ok C13_loopBoxRoutine := rfl
+  have e1 := C13_loopBox_consts.1
+  exact C09_x86_every_prefix_data C13_loopBoxProg [21] true C13_loopBoxBody C13_loopBoxRoutine 1
+    C13_loopBoxMain C13_loopBoxOps c'
+    (by decide) (linTypedCheck_sound C13_loopBoxProg rfl) C13_loopBoxProg_data C13_loopBoxProg_inRange hcompM
+    (by decide) hcompX hrout (by decide) rfl (by decide) rfl
+    (fun st hr => by rcases C13_loop_reachable st hr with rfl | rfl | rfl <;> decide)
+    1 (fun st hr => by rcases C13_loop_reachable st hr with rfl | rfl | rfl <;> decide)
+    k hk {} machOK_default rfl (by decide) (by decide) (by rw [e1]; decide)
+    (C13_loopBoxRoutine.map fun c => (c, 0)) (by simp [List.map_map, Function.comp]) C13_loopBoxRoutine_fits
+
 /-! ### non-vacuity: the box program of C06X86Heap (let, share by `subst`, switch shared and unique) -/
 
 /-- every hypothesis of `C09_x86_data_programs` holds for the box program started with x = 21: the machine
-passes through 21 … boundary states, one for each state of the positional run, and the heap invariant
+passes through a boundary state for each state of the positional run, and the heap invariant
 holds at each (the block is allocated by `let`, shared by `subst`, loaded once shared and once unique) -/
 example : ∃ n0 X0, stepN {} (mkProg ({} : MachCfg) (C06_boxRoutine.map fun c => (c, 0))) n0
       (initState {} [21] 6) = .inl X0 ∧
@@ -284,5 +374,9 @@ end Scc.X86
 #print axioms Scc.X86.C09_x86_data_programs
 #print axioms Scc.X86.C09_x86_reachable
 #print axioms Scc.X86.C09_x86_every_prefix
+#print axioms Scc.X86.C09_x86_every_prefix_data
+#print axioms Scc.X86.C09_boxLoop_every_boundary
 #print axioms Scc.X86.C09_invCheckFn_complete
 #print axioms Scc.X86.C09_x86_heapCheck_boundary
+#print axioms Scc.X86.C09_parseCtx_hook
+#print axioms Scc.X86.C09_x86_monitor_boundary
